@@ -112,7 +112,11 @@ where
         let mut prover = GenProver::<B, H>::new(spec.clone(), options);
         prover.corrupt_aux = corrupt_aux;
         let trace = GenTrace::<B>::new(spec, main);
-        prover.prove(trace)
+        #[cfg(not(feature = "async"))]
+        let r = prover.prove(trace);
+        #[cfg(feature = "async")]
+        let r = block_on(prover.prove(trace));
+        r
     });
     match r {
         Ok(Ok(p)) => ProveOutcome::Proof(Box::new(p)),
@@ -164,4 +168,25 @@ macro_rules! stark_dispatch {
             _ => $f::<F64, Sha3_256<F64>>($($args),*, "f64/Sha3_256"),
         }
     }};
+}
+
+/// minimal executor for the async prover variant: its futures never pend (no I/O), so polling
+/// with a no-op waker until completion is enough
+#[cfg(feature = "async")]
+pub fn block_on<F: std::future::Future>(fut: F) -> F::Output {
+    use std::task::{Context, Poll, RawWaker, RawWakerVTable, Waker};
+    fn noop(_: *const ()) {}
+    fn clone(_: *const ()) -> RawWaker {
+        RawWaker::new(std::ptr::null(), &VTABLE)
+    }
+    static VTABLE: RawWakerVTable = RawWakerVTable::new(clone, noop, noop, noop);
+    let waker = unsafe { Waker::from_raw(RawWaker::new(std::ptr::null(), &VTABLE)) };
+    let mut cx = Context::from_waker(&waker);
+    let mut fut = std::pin::pin!(fut);
+    loop {
+        if let Poll::Ready(v) = fut.as_mut().poll(&mut cx) {
+            return v;
+        }
+        std::thread::yield_now();
+    }
 }
